@@ -99,6 +99,11 @@ def history(rng, maxlen, style):
             table = [("swap", 5), ("cpa", 5), ("mva", 5), ("cpc", 2), ("mvc", 2), ("pushb", 3), ("pushbt", 2), ("inst", 2),
                      ("rel", 2), ("del", 1), ("toroot", 2), ("level", 1), ("pre", 1)]
             ops.append(line(rng, pick(rng, table)))
+        elif style == "grow":
+            table = [("pushb", 8), ("pushf", 4), ("ins", 6), ("pushbt", 3), ("inst", 3), ("cpa", 3), ("mva", 3), ("swap", 4), ("sort", 2),
+                     ("rel", 1), ("popb", 1), ("set", 1), ("cpc", 1), ("pre", 3), ("toroot", 3), ("depth", 2), ("level", 2),
+                     ("cposk", 2), ("cpos", 1), ("map", 2), ("eq", 2), ("eraser", 1)]
+            ops.append(line(rng, pick(rng, table)))
         elif rng.chance(1, 4):
             ops.append(line(rng, pick(rng, OBSERVERS)))
         else:
@@ -109,7 +114,7 @@ def history(rng, maxlen, style):
 def batches(rng, tier):
     thorough = tier == "thorough"
     maxlen = 40 if thorough else 25
-    for style, cnt_q, cnt_t in (("mixed", 1500, 12000), ("assign", 700, 6000)):
+    for style, cnt_q, cnt_t in (("mixed", 4000, 40000), ("assign", 2000, 20000), ("grow", 1500, 15000)):
         r = rng.fork("hist-" + style)
         cnt = cnt_t if thorough else cnt_q
         ops = []
